@@ -76,12 +76,12 @@ extern "C" void vh_c09_readonly() {
 }
 
 extern "C" void vh_c09_readwrite_overwrite() {
-    nixsym_declare_reach("rw"); nixsym_declare_reach("ow"); nixsym_declare_reach("absent"); nixsym_declare_reach("raw");
     World w;
     build_world(w);
     std::string content = observe(w.f);
     drop_handles(w); w.f.close();
     uint32_t which = nixsym_choice("case", 5);
+    nixsym_declare_reach(which == 0 ? "rw" : which == 1 ? "ow" : which == 2 ? "absent" : which == 4 ? "raw" : "plain");
     if (which == 0) {           // ReadWrite keeps everything
         File g = File::open(WORLD_FILE, FileMode::ReadWrite);
         nixsym_assert(observe(g) == content, "ReadWrite opens an existing file with all prior content intact");
@@ -119,5 +119,6 @@ extern "C" void vh_c09_readwrite_overwrite() {
         bool threw = false;
         try { File g = File::open("plain.h5", m ? FileMode::ReadWrite : FileMode::ReadOnly); } catch (const std::exception &) { threw = true; }
         nixsym_assert(threw, "a plain HDF5 file without format/version/id header is refused");
+        nixsym_reach("plain");
     }
 }
